@@ -1589,6 +1589,68 @@ def run_empty_candidates(repo, chk):
         raise AnalysisError("D-empty: only %d reads of particle_map found in %s" % (n_reads, DEC))
 
 
+def run_include_and_dedup(repo, chk):
+    """round-3 seeds: (I-merge) a local override of an included particle wins under every alias spelling;
+    (D-dedup) a decay registers with its mother once however often it is listed"""
+    import sympy as sp
+
+    from ..sym import SelfObj, Translator, Unmodelled
+    chk.rule("I-merge", "_do_include_dict interpreted with the included card as a literal: the merged entry lists the included keys first and the local ones last with the local value for a common key, so that rename_params (last key wins per canonical name) gives the local value whichever alias either side uses; entries only one side has are kept")
+    chk.rule("D-dedup", "BaseParticle.add_decay is idempotent: a decay listed twice (repeated in a card, or exported once per chain and re-loaded) is registered once")
+    dcls = repo.cls(DEC + "::DecayConfig")
+    inc = dcls.methods.get("_do_include_dict")
+    rp = dcls.methods.get("rename_params")
+    if inc is None or rp is None:
+        raise AnalysisError("anchor vanished: DecayConfig._do_include_dict / rename_params")
+    init = repo.fn(DEC + "::DecayConfig.__init__")
+    pkm = {k: const_value(v) for k, v in dict_literal(find_assign(init, "self.particle_key_map").value, "particle_key_map").items()}
+    L = {k: sp.Symbol("local_" + k) for k in ("w", "m", "x", "only")}
+    S = {k: sp.Symbol("incl_" + k) for k in ("w", "m", "J", "T")}
+    cases = [
+        ("local g0 / included width", {"R": {"g0": L["w"]}}, {"R": {"width": S["w"], "mass": S["m"], "J": S["J"]}}),
+        ("local width / included g0", {"R": {"width": L["w"]}}, {"R": {"g0": S["w"], "m0": S["m"]}}),
+        ("same spelling", {"R": {"mass": L["m"]}, "Q": {"J": L["only"]}}, {"R": {"mass": S["m"], "width": S["w"]}, "T": {"J": S["T"]}}),
+    ]
+    bad = None
+    for label, local, included in cases:
+        d = {k: dict(v) for k, v in local.items()}
+        hooks = {dcls.methods["load_config"].key: lambda tr_, a_, k_, n_, inc_=included: {k: dict(v) for k, v in inc_.items()}, "builtin.isinstance": lambda tr_, a_, k_, n_: isinstance(a_[0], dict)}
+        tr = Translator(repo, hooks=hooks, max_depth=2)
+        try:
+            tr.call_fn(inc, [d, "other.yml"])
+            merged = {k: tr.call_fn(rp, [dict(v)], {}, self_obj=SelfObj(dcls, {"particle_key_map": dict(pkm), "decay_key_map": {}})) for k, v in d.items() if isinstance(v, dict)}
+        except Unmodelled as e:
+            raise AnalysisError("_do_include_dict / rename_params cannot be interpreted: %s" % e)
+        want = {}
+        for name in list(included) + [k for k in local if k not in included]:
+            ent = {}
+            for k, v in list(included.get(name, {}).items()) + list(local.get(name, {}).items()):
+                ent[pkm.get(k, k)] = v
+            want[name] = ent
+        if merged != want and bad is None:
+            bad = "%s: after the include the particles read %s, expected %s (local definitions win, included entries fill the rest)" % (label, merged, want)
+    chk.oblige("I-merge", "3 include cases (alias spellings differ / agree, entries on one side only)", bad is None)
+    if bad:
+        chk.violation("I-merge", inc.key, "override", bad, file=DEC, line=inc.lineno)
+    # D-dedup
+    pc = repo.cls(PART + "::BaseParticle")
+    ad = pc.methods.get("add_decay")
+    if ad is None:
+        raise AnalysisError("anchor vanished: BaseParticle.add_decay")
+    so = SelfObj(pc, {"decay": ["d1"]})
+    tr = Translator(repo, max_depth=1)
+    try:
+        tr.call_fn(ad, ["d1"], {}, self_obj=so)
+        tr.call_fn(ad, ["d2"], {}, self_obj=so)
+        tr.call_fn(ad, ["d2"], {}, self_obj=so)
+    except Unmodelled as e:
+        raise AnalysisError("BaseParticle.add_decay cannot be interpreted: %s" % e)
+    ok = so.attrs["decay"] == ["d1", "d2"]
+    chk.oblige("D-dedup", "add_decay(d1), add_decay(d2), add_decay(d2) on [d1] gives %s" % (so.attrs["decay"],), ok)
+    if not ok:
+        chk.violation("D-dedup", ad.key, "idempotent", "registering a decay that is already listed gives %s: a decay shared by several chains is exported once per chain, so every re-load multiplies the chains" % (so.attrs["decay"],), file=PART, line=ad.lineno)
+
+
 def run(repo, chk, tier):
     chk.rule(
         "E4",
@@ -1610,6 +1672,7 @@ def run(repo, chk, tier):
     run_export(repo, chk)
     run_isolation(repo, chk)
     run_empty_candidates(repo, chk)
+    run_include_and_dedup(repo, chk)
     from ..cacheown import check_cache_ownership
 
     # memoised chain/decay structure (ls lists, ids, sorted tables, swap maps) is shared between loads
